@@ -21,7 +21,7 @@ RULE = ("random position grids: direction algorithm in {ico, cube3D, randomS}, N
 ASSUMPTIONS = ["lateral pairs whose oracle arc lies in [1e-10, 1e-5] are ambiguous (not judged)", "values compared at rtol 1e-10",
                "T=1 (single radius, R=2r) is driven as an extra class although the quantifier starts at T>=2"]
 EXHAUSTIVE = {"quick": False, "thorough": False}
-MIN_NONTRIVIAL = {"quick": 40, "thorough": 1000}
+MIN_NONTRIVIAL = {"quick": 40, "thorough": 2000}
 RTOL = 1e-10
 
 
@@ -223,7 +223,7 @@ def drive(PositionGrid, alg, N, text, order_seed=0):
 
 
 def shards(tier, seed):
-    n, per = (8, 25) if tier == "quick" else (16, 95)
+    n, per = (8, 25) if tier == "quick" else (16, 300)
     return [{"rseed": seed * 1000 + i, "count": per} for i in range(n)]
 
 
